@@ -23,6 +23,11 @@
 //!                         scenario holds siblings whose names extend a symlink's name (`to_file.txt`, `to_dir2/inner`,
 //!                         `to_plainer`, `d/up_up.bak`, `d/up_up2/deep/f`): the whole restored tree must equal the
 //!                         source and no error may be reported.
+//!                         Round 8: exclude FILES and `#` (`exclude_hash_table`): `.#*`, `/issue#*`, `a#b` are globs, a line
+//!                         is a comment only when its first non-blank character is `#`, there are no trailing comments.
+//!                         Round 8 (`restore_sandbox`): the stitched scenario also with a replaced directory whose NAME holds
+//!                         a newline / TAB / 0x01 / ESC (`a\nb`, `t\tab`, `\u{1}c`, `monthly\nreports`, ..); listings are
+//!                         compared by the RAW text of the apaths, never by their Display form.
 //!  * `resume_no_rewrite`  (C14): a backup interrupted after any index hunk and resumed on the unchanged tree
 //!                         writes no data block (everything it needs is already stored), and an unchanged-tree
 //!                         backup writes none and records identical addresses.
@@ -31,6 +36,8 @@
 //!                         same files with identical bytes apart from BANDHEAD / BANDTAIL.  The source holds files,
 //!                         directories and symlinks dated in the future and in the far past (w_round5::dated_entries).
 //!                         `determinism_replay_fast`: the same without the stall (quick tier).
+//!                         Round 8 (both kinds): a history with a FAILING delete (`b0001 b0099(absent) b0002 b0003` on six
+//!                         versions) replayed eight times leaves the same versions and bytes every time.
 
 use std::collections::BTreeMap;
 use std::os::unix::fs::{lchown, symlink, MetadataExt, PermissionsExt};
@@ -87,7 +94,7 @@ async fn listing(archive: &Archive, band: u32, exclude: Exclude) -> Result<Vec<S
     let mut it = archive.iter_entries(BandSelectionPolicy::Specified(BandId::new(&[band])), Apath::root(), exclude, Arc::new(VoidMonitor)).await.map_err(|e| format!("setup failed at line {}: {e:?}", line!()))?;
     let mut out = Vec::new();
     while let Some(e) = it.next().await {
-        out.push(e.apath.to_string());
+        out.push(String::from(e.apath.clone())); // the raw text, not Display
     }
     Ok(out)
 }
@@ -154,7 +161,10 @@ fn exclude_roundtrip() -> Result<Option<Value>, String> {
         if let Some(v) = exclude_reference_table(tmp.path()).await? {
             return Ok(Some(v));
         }
-        exclude_whitespace_table(tmp.path()).await
+        if let Some(v) = exclude_whitespace_table(tmp.path()).await? {
+            return Ok(Some(v));
+        }
+        exclude_hash_table(tmp.path()).await
     })
 }
 
@@ -267,19 +277,59 @@ async fn exclude_whitespace_table(tmp: &Path) -> Result<Option<Value>, String> {
         // both: the string is literal, the line of the file is trimmed
         (vec![" a"], Some("tmp \n"), vec!["/ a", "/sub/ a", "/tmp", "/tmp/kept"]),
     ];
-    let full = Archive::create_path(&tmp.join("ws_full")).await.map_err(|e| format!("setup failed at line {}: {e:?}", line!()))?;
-    conserve::backup(&full, &src, &BackupOptions::default(), Arc::new(VoidMonitor)).await.map_err(|e| format!("setup failed at line {}: {e:?}", line!()))?;
+    run_exclude_file_table(tmp, "ws", &src, all, table, "a pattern given as a string is a glob over names as it stands: white space at its ends is part of it (only the lines of an exclude file are trimmed); an entry is omitted if and only if it or an ancestor matches").await
+}
+
+/// Round 8: `#` in patterns and in exclude files.  In an exclude FILE a line whose first non-blank character is `#` is a
+/// comment (README; the unchanged code trims the line first, so an INDENTED `#` line is a comment too -- that is what is
+/// expected here); anywhere else `#` is an ordinary character of the glob: `.#*` (Emacs lock files), `/issue#*`, `a#b`
+/// name entries, and there are NO trailing comments (`b # x` is the glob `b # x`).  A name that starts with `#` can be
+/// excluded from a file with a character class (`[#]top`).  A pattern given as a STRING is never a comment.
+async fn exclude_hash_table(tmp: &Path) -> Result<Option<Value>, String> {
+    let src = tmp.join("hash_src");
+    write_tree(&src, &[(".#lock", 3), ("issue#12", 4), ("a#b", 5), ("a", 3), ("b", 3), ("keep.txt", 3), (".#keep.txt", 4), ("sub/notes", 3), ("sub/.#notes", 4), ("sub/a#b", 4), ("issue#42/log", 3), ("issue", 3), ("#top", 4), ("sub/issue#7", 3)])?;
+    let mut all: Vec<String> = ["/#top", "/.#keep.txt", "/.#lock", "/a", "/a#b", "/b", "/issue", "/issue#12", "/issue#42", "/issue#42/log", "/keep.txt", "/sub", "/sub/.#notes", "/sub/a#b", "/sub/issue#7", "/sub/notes"]
+        .iter().map(|s| s.to_string()).collect();
+    all.sort();
+    // (patterns given as strings, lines of an exclude file, paths that are OMITTED) -- everything else remains
+    let table: Vec<(Vec<&str>, Option<&str>, Vec<&str>)> = vec![
+        (vec![], Some(".#*\n"), vec!["/.#keep.txt", "/.#lock", "/sub/.#notes"]),
+        (vec![], Some("/issue#*\n"), vec!["/issue#12", "/issue#42", "/issue#42/log"]),
+        (vec![], Some("# a comment line\n.#*\n#a\n"), vec!["/.#keep.txt", "/.#lock", "/sub/.#notes"]),
+        // the unchanged code trims a line BEFORE it looks for the leading `#`: an indented `#` line is a comment too
+        (vec![], Some("  # indented comment\n\t#b\na#b\n"), vec!["/a#b", "/sub/a#b"]),
+        (vec![], Some("a#b\n"), vec!["/a#b", "/sub/a#b"]),
+        (vec![], Some("a\n"), vec!["/a"]),
+        // a line that starts with `#` is a comment even when an entry has that name
+        (vec![], Some("#top\n"), vec![]),
+        (vec![], Some("[#]top\n"), vec!["/#top"]),
+        // no trailing comments: the whole trimmed line is the glob
+        (vec![], Some("b # not a comment\nissue#42/log # neither\n"), vec![]),
+        (vec![], Some("sub/*#*\n"), vec!["/sub/.#notes", "/sub/a#b", "/sub/issue#7"]),
+        // strings are never comments
+        (vec![".#*", "/issue#*"], None, vec!["/.#keep.txt", "/.#lock", "/sub/.#notes", "/issue#12", "/issue#42", "/issue#42/log"]),
+        (vec!["#top"], None, vec!["/#top"]),
+        (vec!["a#b"], Some("# b\nissue\n"), vec!["/a#b", "/sub/a#b", "/issue"]),
+    ];
+    run_exclude_file_table(tmp, "hash", &src, all, table, "`#` starts a comment only at the beginning of a (trimmed) line of an exclude file; inside a glob it is an ordinary character: an entry is omitted if and only if it or an ancestor matches one of the globs AS GIVEN").await
+}
+
+/// Backup-time, list-time and restore-time selection against a hand-written table, through `Exclude::from_strings` (rows
+/// without a file) and `Exclude::from_patterns_and_files`.
+async fn run_exclude_file_table(tmp: &Path, tag: &str, src: &Path, all: Vec<String>, table: Vec<(Vec<&str>, Option<&str>, Vec<&str>)>, explain: &str) -> Result<Option<Value>, String> {
+    let full = Archive::create_path(&tmp.join(format!("{tag}_full"))).await.map_err(|e| format!("setup failed at line {}: {e:?}", line!()))?;
+    conserve::backup(&full, src, &BackupOptions::default(), Arc::new(VoidMonitor)).await.map_err(|e| format!("setup failed at line {}: {e:?}", line!()))?;
     let mut all_listed: Vec<String> = listing(&full, 0, Exclude::nothing()).await?.into_iter().filter(|p| p != "/").collect();
     all_listed.sort();
     if all_listed != all {
-        return Err(format!("setup failed: the white-space reference tree lists as {all_listed:?}"));
+        return Err(format!("setup failed: the {tag} reference tree lists as {all_listed:?}"));
     }
     for (ti, (pats, file_lines, omitted)) in table.iter().enumerate() {
         if let Some(bad) = omitted.iter().find(|o| !all.iter().any(|a| a == *o)) {
-            return Err(format!("setup failed: the white-space table names {bad:?} which is not in the tree"));
+            return Err(format!("setup failed: the {tag} table names {bad:?} which is not in the tree"));
         }
         let want: Vec<String> = all.iter().filter(|p| !omitted.contains(&p.as_str())).cloned().collect();
-        let file = tmp.join(format!("ws_exclude_{ti}.txt"));
+        let file = tmp.join(format!("{tag}_exclude_{ti}.txt"));
         if let Some(lines) = file_lines {
             std::fs::write(&file, lines).map_err(|e| format!("setup failed at line {}: {e:?}", line!()))?;
         }
@@ -299,12 +349,12 @@ async fn exclude_whitespace_table(tmp: &Path) -> Result<Option<Value>, String> {
                 let wrongly_kept: Vec<&String> = got.iter().filter(|p| !want.contains(p)).collect();
                 found("exclude_roundtrip", json!({"constructor": ctor, "patterns": pats, "exclude_file_content": file_lines, "phase": phase, "tree": all}),
                     format!("{phase}: omitted although neither the entry nor an ancestor matches: {wrongly_omitted:?}; kept although the entry or an ancestor matches: {wrongly_kept:?}"), &format!("exactly {want:?}"),
-                    "a pattern given as a string is a glob over names as it stands: white space at its ends is part of it (only the lines of an exclude file are trimmed); an entry is omitted if and only if it or an ancestor matches")
+                    explain)
             };
-            let part_dir = tmp.join(format!("ws_part{ti}"));
+            let part_dir = tmp.join(format!("{tag}_part{ti}"));
             let _ = std::fs::remove_dir_all(&part_dir);
             let part = Archive::create_path(&part_dir).await.map_err(|e| format!("setup failed at line {}: {e:?}", line!()))?;
-            conserve::backup(&part, &src, &BackupOptions { exclude: ex()?, ..BackupOptions::default() }, Arc::new(VoidMonitor)).await.map_err(|e| format!("setup failed at line {}: {e:?}", line!()))?;
+            conserve::backup(&part, src, &BackupOptions { exclude: ex()?, ..BackupOptions::default() }, Arc::new(VoidMonitor)).await.map_err(|e| format!("setup failed at line {}: {e:?}", line!()))?;
             let mut stored: Vec<String> = listing(&part, 0, Exclude::nothing()).await?.into_iter().filter(|p| p != "/").collect();
             stored.sort();
             if stored != want {
@@ -315,7 +365,7 @@ async fn exclude_whitespace_table(tmp: &Path) -> Result<Option<Value>, String> {
             if listed != want {
                 return report("listing the full backup with the exclusions", &listed);
             }
-            let dest = tmp.join("ws_dest");
+            let dest = tmp.join(format!("{tag}_dest"));
             let _ = std::fs::remove_dir_all(&dest);
             conserve::restore(&full, &dest, RestoreOptions { exclude: ex()?, ..RestoreOptions::default() }, Arc::new(VoidMonitor)).await.map_err(|e| format!("setup failed at line {}: {e:?}", line!()))?;
             let mut restored: Vec<String> = tree_snapshot(&dest, &[])?.into_keys().map(|k| format!("/{k}")).collect();
@@ -454,10 +504,17 @@ fn restore_sandbox() -> Result<Option<Value>, String> {
         }
         // the stitched listing of an interrupted backup: a symlink from the newer band followed by the former contents
         // of the directory it replaced, from the older band
-        for (name, target) in [("absolute", LinkTarget::AbsoluteSentinel), ("relative", LinkTarget::RelativeSentinel), ("dotdot", LinkTarget::DotDot)] {
-            for interrupted in [true, false] {
-                if let Some(v) = stitched_symlink_case(name, target, interrupted).await? {
-                    return Ok(Some(v));
+        // round 8: the replaced directory's NAME holds a newline / TAB / 0x01 / ESC (legal names): the guard must
+        // recognise the restored symlink by the raw path, whatever the path looks like when printed
+        for dir in ["a", "a\nb", "t\tab", "\u{1}c", "monthly\nreports", "e\u{1b}[0m"] {
+            for (name, target) in [("absolute", LinkTarget::AbsoluteSentinel), ("relative", LinkTarget::RelativeSentinel), ("dotdot", LinkTarget::DotDot)] {
+                for interrupted in [true, false] {
+                    if dir != "a" && (!interrupted || (dir.len() > 3 && !matches!(target, LinkTarget::DotDot))) {
+                        continue; // the complete case and all three targets are covered with the plain name and the short odd names
+                    }
+                    if let Some(v) = stitched_symlink_case(dir, name, target, interrupted).await? {
+                        return Ok(Some(v));
+                    }
                 }
             }
         }
@@ -495,7 +552,7 @@ fn tree_snapshot(root: &Path, skip: &[PathBuf]) -> Result<BTreeMap<String, Strin
 /// hunk; the later hunks and the tail are removed: the state a killed backup leaves).  Restore the LATEST version:
 /// nothing outside the destination may be created or changed; in the interrupted case the entries below `/a` must be
 /// refused WITH an error report, in the complete case there is nothing to refuse and no error.
-async fn stitched_symlink_case(name: &str, target: LinkTarget, interrupted: bool) -> Result<Option<Value>, String> {
+async fn stitched_symlink_case(dir: &str, name: &str, target: LinkTarget, interrupted: bool) -> Result<Option<Value>, String> {
     let tmp = tempfile::tempdir().map_err(|e| format!("setup failed at line {}: {e:?}", line!()))?;
     let sandbox = tmp.path().join("sandbox");
     let sentinel_dir = sandbox.join("sentinel_dir");
@@ -515,19 +572,20 @@ async fn stitched_symlink_case(name: &str, target: LinkTarget, interrupted: bool
     filetime::set_file_mtime(&sandbox, filetime::FileTime::from_unix_time(1_000_000_002, 7)).map_err(|e| format!("setup failed at line {}: {e:?}", line!()))?;
     // source and archive live outside the sandbox, so that the sandbox holds only sentinels and the destination
     let src = tmp.path().join("src");
-    write_tree(&src, &[("a/x", 9), ("a/sub/y", 5), ("a/sub/deeper/z", 6), ("plain", 7)])?;
+    write_tree(&src, &[(&format!("{dir}/x"), 9), (&format!("{dir}/sub/y"), 5), (&format!("{dir}/sub/deeper/z"), 6), ("plain", 7)])?;
+    let top = format!("/{dir}");
     let opts = || BackupOptions { max_entries_per_hunk: 1, ..BackupOptions::default() };
     let archive_path = tmp.path().join("archive");
     let archive = Archive::create_path(&archive_path).await.map_err(|e| format!("setup failed at line {}: {e:?}", line!()))?;
     conserve::backup(&archive, &src, &opts(), Arc::new(VoidMonitor)).await.map_err(|e| format!("setup failed at line {}: {e:?}", line!()))?;
-    std::fs::remove_dir_all(src.join("a")).map_err(|e| format!("setup failed at line {}: {e:?}", line!()))?;
+    std::fs::remove_dir_all(src.join(dir)).map_err(|e| format!("setup failed at line {}: {e:?}", line!()))?;
     let dest = sandbox.join("dest");
     let target_text: PathBuf = match target {
         LinkTarget::AbsoluteSentinel => sentinel_dir.clone(),
         LinkTarget::RelativeSentinel => PathBuf::from("../sentinel_dir"),   // resolved from dest/: sandbox/sentinel_dir
         LinkTarget::DotDot => PathBuf::from(".."),                           // resolved from dest/: the sandbox itself
     };
-    symlink(&target_text, src.join("a")).map_err(|e| format!("setup failed at line {}: {e:?}", line!()))?;
+    symlink(&target_text, src.join(dir)).map_err(|e| format!("setup failed at line {}: {e:?}", line!()))?;
     conserve::backup(&archive, &src, &opts(), Arc::new(VoidMonitor)).await.map_err(|e| format!("setup failed at line {}: {e:?}", line!()))?;
     drop(archive);
     if interrupted {
@@ -537,7 +595,7 @@ async fn stitched_symlink_case(name: &str, target: LinkTarget, interrupted: bool
         let probe = Archive::open_path(&archive_path).await.map_err(|e| format!("setup failed at line {}: {e:?}", line!()))?;
         let complete = listing(&probe, 1, Exclude::nothing()).await?;
         drop(probe);
-        let pos = complete.iter().position(|p| p == "/a").ok_or_else(|| format!("setup failed: /a is not in the second version: {complete:?}"))?;
+        let pos = complete.iter().position(|p| *p == top).ok_or_else(|| format!("setup failed: {top:?} is not in the second version: {complete:?}"))?;
         if nhunks != complete.len() {
             return Err(format!("setup failed: expected one entry per hunk, got {nhunks} hunks for {} entries", complete.len()));
         }
@@ -552,17 +610,17 @@ async fn stitched_symlink_case(name: &str, target: LinkTarget, interrupted: bool
     {
         let mut it = archive.iter_entries(BandSelectionPolicy::Latest, Apath::root(), Exclude::nothing(), Arc::new(VoidMonitor)).await.map_err(|e| format!("setup failed at line {}: {e:?}", line!()))?;
         while let Some(e) = it.next().await {
-            listed.push(e.apath.to_string());
+            listed.push(String::from(e.apath.clone())); // the raw text, not Display
         }
     }
-    let below: Vec<&String> = listed.iter().filter(|p| p.starts_with("/a/")).collect();
-    if interrupted && !["/a/x", "/a/sub/y", "/a/sub/deeper/z"].iter().all(|p| below.iter().any(|b| b == p)) {
-        return Err(format!("setup failed: the stitched listing does not hold the files below /a at depth 1, 2 and 3: {listed:?}"));
+    let below: Vec<&String> = listed.iter().filter(|p| p.starts_with(&format!("{top}/"))).collect();
+    if interrupted && !["/x", "/sub/y", "/sub/deeper/z"].iter().all(|p| below.iter().any(|b| **b == format!("{top}{p}"))) {
+        return Err(format!("setup failed: the stitched listing does not hold the files below {top:?} at depth 1, 2 and 3: {listed:?}"));
     }
     if !interrupted && !below.is_empty() {
         return Err(format!("setup failed: the complete second version lists entries below the symlink: {listed:?}"));
     }
-    let input = json!({"scenario": "directory replaced by a symlink", "link_target": name, "target_text": target_text.to_string_lossy(), "second_backup_interrupted_after": if interrupted { "/a" } else { "(complete)" }, "latest_version_lists": listed});
+    let input = json!({"scenario": "directory replaced by a symlink", "link_target": name, "target_text": target_text.to_string_lossy(), "replaced_directory": top, "second_backup_interrupted_after": if interrupted { top.as_str() } else { "(complete)" }, "latest_version_lists": listed});
     let before = tree_snapshot(&sandbox, &[dest.clone()])?;
     let before_dir = snap(&sentinel_dir)?;
     let monitor = TestMonitor::arc();
@@ -580,9 +638,9 @@ async fn stitched_symlink_case(name: &str, target: LinkTarget, interrupted: bool
     if let Err(e) = r {
         return found("restore_sandbox", input, format!("restore failed: {e}"), "Ok (entries that cannot be restored are reported, the rest is restored)", "restore of the latest version aborted");
     }
-    let m = std::fs::symlink_metadata(dest.join("a")).map_err(|e| format!("setup failed at line {}: {e:?}", line!()))?;
-    if !m.file_type().is_symlink() || std::fs::read_link(dest.join("a")).map_err(|e| format!("setup failed at line {}: {e:?}", line!()))? != target_text {
-        return found("restore_sandbox", input, format!("dest/a is {:?}", m.file_type()), "the symlink recorded by the latest version", "the symlink of the latest version was not restored as that symlink");
+    let m = std::fs::symlink_metadata(dest.join(dir)).map_err(|e| format!("setup failed at line {}: {e:?}", line!()))?;
+    if !m.file_type().is_symlink() || std::fs::read_link(dest.join(dir)).map_err(|e| format!("setup failed at line {}: {e:?}", line!()))? != target_text {
+        return found("restore_sandbox", input, format!("dest/{dir:?} is {:?}", m.file_type()), "the symlink recorded by the latest version", "the symlink of the latest version was not restored as that symlink");
     }
     if std::fs::read(dest.join("plain")).ok().map(|c| c.len()) != Some(7) {
         return found("restore_sandbox", input, "dest/plain is missing or has the wrong length".into(), "the other entries are restored", "an entry beside the symlink was not restored");
@@ -946,6 +1004,57 @@ fn determinism(kind: &str, stall: bool) -> Result<Option<Value>, String> {
         let differ: Vec<&String> = a.keys().filter(|k| b.get(*k).map(|v| v != &a[*k]).unwrap_or(false)).collect();
         return found(kind, json!({"stall_s": if stall { 31 } else { 0 }}), format!("only in replay 1: {only_a:?}; only in replay 2: {only_b:?}; different bytes: {differ:?}"),
             "identical archive trees (apart from BANDHEAD/BANDTAIL timestamps)", "replaying the same history twice produced different archives");
+    }
+    failing_delete_replay(kind)
+}
+
+/// Round 8: a history that contains a FAILING operation: six versions of pinned source states, then one delete that
+/// names an absent version in the middle (`b0001 b0099 b0002 b0003`).  Whatever the delete does with such a request
+/// (the unchanged code deletes b0001, then fails at b0099), the same history must leave the same archive: replayed
+/// eight times in this process, the remaining band directories and every remaining file must be identical, and the
+/// call must return the same kind of result.
+fn failing_delete_replay(kind: &str) -> Result<Option<Value>, String> {
+    let tmp = tempfile::tempdir().map_err(|e| format!("setup failed at line {}: {e:?}", line!()))?;
+    let src = tmp.path().join("src");
+    let rt = tokio::runtime::Builder::new_current_thread().enable_all().build().map_err(|e| format!("setup failed at line {}: {e:?}", line!()))?;
+    let request = ["b0001", "b0099", "b0002", "b0003"];
+    let input = json!({"history": "6 backups, then delete_bands([b0001, b0099 (absent), b0002, b0003])", "replays": 8});
+    let mut first: Option<(Vec<String>, BTreeMap<String, Vec<u8>>, String)> = None;
+    for replay in 0..8 {
+        let _ = std::fs::remove_dir_all(&src);
+        let apath = tmp.path().join(format!("d{replay}"));
+        let outcome = rt.block_on(async {
+            let archive = Archive::create_path(&apath).await.map_err(|e| format!("setup failed at line {}: {e:?}", line!()))?;
+            for v in 0..6usize {
+                write_tree(&src, &[(&format!("f{v}"), 40 + v), ("same", 30), ("sub/changing", 20 + v)])?;
+                pin_times(&src, 1_600_000_000 + 100 * v as i64);
+                conserve::backup(&archive, &src, &BackupOptions { small_file_cap: 0, ..BackupOptions::default() }, Arc::new(VoidMonitor)).await.map_err(|e| format!("setup failed at line {}: {e:?}", line!()))?;
+            }
+            let ids = [BandId::new(&[1]), BandId::new(&[99]), BandId::new(&[2]), BandId::new(&[3])];
+            let r = archive.delete_bands(&ids, &conserve::DeleteOptions { dry_run: false, break_lock: false }, Arc::new(VoidMonitor)).await;
+            Ok::<String, String>(match r {
+                Ok(st) => format!("Ok (deleted_band_count = {})", st.deleted_band_count),
+                Err(e) => format!("Err({e})"),
+            })
+        })?;
+        let mut bands: Vec<String> = std::fs::read_dir(&apath).map_err(|e| format!("setup failed at line {}: {e:?}", line!()))?.flatten().map(|e| e.file_name().to_string_lossy().into_owned()).filter(|n| n.starts_with('b')).collect();
+        bands.sort();
+        let bytes = tree_bytes(&apath);
+        match &first {
+            None => first = Some((bands, bytes, outcome)),
+            Some((bands0, bytes0, outcome0)) => {
+                if *bands0 != bands || *outcome0 != outcome {
+                    return found(kind, input, format!("replay 0: delete returned {outcome0}, versions left {bands0:?}; replay {replay}: delete returned {outcome}, versions left {bands:?}"),
+                        "the same versions are left by every replay of the same history",
+                        &format!("a delete request {request:?} that names an absent version removes a different subset of the versions each time it is replayed: what a history leaves depends on something other than the history"));
+                }
+                if *bytes0 != bytes {
+                    let differ: Vec<&String> = bytes0.keys().filter(|k| bytes.get(*k) != bytes0.get(*k)).chain(bytes.keys().filter(|k| !bytes0.contains_key(*k))).collect();
+                    return found(kind, input, format!("replay {replay} differs from replay 0 in {differ:?}"), "identical archive trees (apart from BANDHEAD/BANDTAIL timestamps)",
+                        "replaying a history with a failing delete produced different archives");
+                }
+            }
+        }
     }
     Ok(None)
 }
